@@ -84,6 +84,8 @@ if __name__ == '__main__':
     rest = sys.argv[2:]
     if rest and rest[0] == '--round2':
         prefix, offset, rest = '/tmp/wt2_', 2, rest[1:]
+    if rest and rest[0] == '--round3':
+        prefix, offset, rest = '/tmp/wt3_', 4, rest[1:]
     ks = [int(x) for x in rest] or [1, 2]
     for k in ks:
         print(json.dumps(ingest(pid, k, prefix, offset)), flush=True)
